@@ -218,6 +218,9 @@ def gen_lineage(rng, allow_noise=True):
     rx = [([], ["A"], "massaction", {"k": "k"}), (["A"], ["B"], "massaction", {"k": "d"})]
     if not closed:
         rx.append((["B"], [], "massaction", {"k": "e"}))
+        if rng.chance(1, 3):
+            rx.append((["A", "A"], ["B"], "massaction", {"k": "k2"}))       # a repeated reactant: falling factorial A(A-1)/V
+            params["k2"] = rng.choice([0.02, 0.1])
     nz = lambda: allow_noise and rng.chance(1, 4)
     vol_rules = []
     for _ in range(rng.choice([0, 1, 1, 1, 2])):
@@ -411,9 +414,10 @@ def compare_nodes(real, model, single):
     return None
 
 
-def lineage_oracle(ctx, spec, T, seed, nodes, M, single, safe):
-    """the property on implementation output."""
-    rep = {"spec": spec, "grid": [float(t) for t in T], "seed": seed, "single": single, "safe": safe}
+def lineage_oracle(ctx, spec, T, seed, nodes, M, single, safe, only_splitter=None):
+    """the property on implementation output.  only_splitter: the index of the one splitter every division of this model must
+    have used (models in which only one division rule / event can fire)."""
+    rep = {"spec": spec, "grid": [float(t) for t in T], "seed": seed, "single": single, "safe": safe, "only_splitter": only_splitter}
     si = M.get_species2index()
     names = sorted(si, key=lambda s: si[s])
     grid = [float(t) for t in T]
@@ -471,7 +475,7 @@ def lineage_oracle(ctx, spec, T, seed, nodes, M, single, safe):
             # which splitter: every splitter of the model must agree with the observation when they differ, so test against
             # the candidates and require one to fit (the model comparison pins the exact one)
             fits = False
-            for s in spec["splitters"]:
+            for s in (spec["splitters"] if only_splitter is None else [spec["splitters"][only_splitter]]):
                 class _C:    # collect instead of reporting
                     def __init__(self): self.bad = None
                     def violation(self, sig, what, r): self.bad = (sig, what, r)
@@ -495,6 +499,46 @@ def lineage_oracle(ctx, spec, T, seed, nodes, M, single, safe):
         ctx.violation("lineage/roots", "the lineage of one initial cell does not have exactly that cell as its root", dict(rep, roots=roots))
         return False
     return True
+
+
+def splitter_selection(ctx, rng):
+    """a division uses the splitter registered with the rule or event that caused it.  Models with division rules *and* a
+    division event whose splitters treat the inert species C (and the volume) differently, built so that only one of them
+    can fire: every division in the lineage must then fit that one splitter."""
+    base = {"params": {"k": 1.0, "d": 0.5, "e": 0.0, "g": 0.5, "gn": 0.05, "tthr": 1.0, "vthr": 1e9, "dthr": 1e9, "tn": 0.05, "bthr": 1e9,
+                       "kv": 0.5, "kd": 0.8, "kx": 0.0, "zero": 0.0, "c": 2.0},
+            "reactions": [[[], ["A"], "massaction", {"k": "k"}], [["A"], ["B"], "massaction", {"k": "d"}]],
+            "vol_rules": [("linear", {"growth_rate": "g"})], "death_rules": [], "vol_events": [], "death_events": [], "rules": [],
+            "dt": 0.25, "npts": 17, "x0": {"A": 10.0, "B": 5.0, "C": 40.0, "S": 0.0}, "vol0": 1.0, "closed": False}
+    never_v = ("volume", {"threshold": "vthr"})
+    never_d = ("delta", {"threshold": "dthr"})
+    fires_t = ("time", {"threshold": "tthr"})
+    ev_on = ("division", {}, "massaction", {"k": "kd", "species": ""})
+    ev_off = ("division", {}, "massaction", {"k": "zero", "species": ""})
+    binom = {"modes": {"A": "binomial", "B": "binomial", "C": "binomial", "S": "binomial"}, "volume": "binomial", "noise": 0.5}
+    dupl = {"modes": {"A": "binomial", "B": "perfect", "C": "duplicate", "S": "binomial"}, "volume": "duplicate", "noise": 0.0}
+    perf = {"modes": {"A": "perfect", "B": "binomial", "C": "perfect", "S": "binomial"}, "volume": "perfect", "noise": 0.0}
+    cases = [("one idle rule, the event divides", [never_v], [ev_on], [binom, dupl], 1),
+             ("two idle rules, the event divides", [never_v, never_d], [ev_on], [binom, perf, dupl], 2),
+             ("the rule divides, the event is idle", [fires_t], [ev_off], [perf, dupl], 0),
+             ("second rule divides, first rule and event idle", [never_v, fires_t], [ev_off], [binom, dupl, perf], 1)]
+    for name, drs, des, sps, which in cases:
+        spec = dict(base, div_rules=drs, div_events=des, splitters=sps)
+        T = [j * spec["dt"] for j in range(spec["npts"])]
+        for safe in (False, True):
+            seed = rng.randint(1, 2**31)
+            ctx.begin_case({"spec": spec, "grid": T, "seed": seed, "single": False, "safe": safe, "only_splitter": which, "scenario": name})
+            status, nodes, Mr = run_real(spec, T, seed, False, safe=safe)
+            ctx.evaluated()
+            if status == "raised":
+                ctx.broke("corr_C19_lineage_exception", {"spec": spec, "grid": T, "seed": seed, "single": False, "safe": safe, "difference": "implementation raised %r" % nodes})
+                return
+            if not lineage_oracle(ctx, spec, T, seed, nodes, Mr, False, safe, only_splitter=which):
+                return
+            ndiv = sum(1 for nd in nodes if nd["daughters"] is not None)
+            ctx.count("splitter_selection_divisions", ndiv)
+            if ndiv == 0:
+                ctx.notes.append("splitter_selection '%s': no division observed" % name)
 
 
 def model_finite(nodes):
@@ -556,7 +600,7 @@ def lineage_corr(ctx, rng, nmodels, nseeds):
 
 
 def lineage_oracle_only(ctx, rng, nmodels):
-    """the safe interface (not modelled): oracle only."""
+    """the safe interface: the oracle, and the plain model's run (see below)."""
     for i in range(nmodels):
         spec = gen_lineage(rng)
         T = [j * spec["dt"] for j in range(spec["npts"])]
@@ -576,6 +620,15 @@ def lineage_oracle_only(ctx, rng, nmodels):
             continue
         if not lineage_oracle(ctx, spec, T, s, nodes, Mr, single, True):
             return
+        # every reaction here is mass action with non-negative constants: at non-negative integer counts the safe interface's
+        # guard (enough reactants?) zeroes exactly the rates the falling factorial zeroes, so the safe run is the plain
+        # model's run bit for bit
+        if a.get("status") == "ok":
+            d = compare_nodes(nodes, [a] if single else a["nodes"], single)
+            if d is not None:
+                ctx.broke("corr_C19_safe_lineage_bit_exact", {"spec": spec, "grid": T, "seed": s, "single": single, "safe": True, "difference": d})
+                return
+            ctx.count("safe_runs_bit_exact")
         ctx.count("safe_runs")
 
 
@@ -734,6 +787,7 @@ def run(ctx):
     q = ctx.quick()
     birth_edge_cases(ctx)
     noise_validation(ctx)
+    splitter_selection(ctx, rng)
     splitter_corr(ctx, rng, 400 if q else 6000)
     binomial_statistics(ctx, rng, 1500 if q else 20000)
     lineage_corr(ctx, rng, 30 if q else 500, 2 if q else 4)
@@ -746,7 +800,7 @@ def replay(ctx, obj):
         status, nodes, M = run_real(obj["spec"], obj["grid"], obj["seed"], obj.get("single", False), obj.get("safe", False))
         if status == "raised":
             return
-        lineage_oracle(ctx, obj["spec"], obj["grid"], obj["seed"], nodes, M, obj.get("single", False), obj.get("safe", False))
+        lineage_oracle(ctx, obj["spec"], obj["grid"], obj["seed"], nodes, M, obj.get("single", False), obj.get("safe", False), only_splitter=obj.get("only_splitter"))
     else:
         run(ctx)
 
